@@ -73,8 +73,21 @@ def pad_to(f, shape):
     while f.ndim > len(shape):
         ax = [k for k in range(f.ndim) if f.shape[k] == 1][-1]
         f = np.squeeze(f, axis=ax)
-    while f.ndim < len(shape):
-        f = f[..., None]
+    if f.ndim < len(shape):
+        # omitted singleton component axes are re-inserted where the target has size one (leading axis of a scalar test
+        # field, trailing axis of a scalar trial field)
+        missing = len(shape) - f.ndim
+        dims, k = [], 0
+        for pos, t in enumerate(shape):
+            rest_target = len(shape) - pos
+            rest_f = f.ndim - k
+            if t == 1 and missing > 0 and (rest_f < rest_target) and (k >= f.ndim or f.shape[k] != 1 or rest_f < rest_target):
+                dims.append(1)
+                missing -= 1
+            else:
+                dims.append(f.shape[k])
+                k += 1
+        f = f.reshape(dims)
     out = np.zeros(shape)
     out[tuple(slice(0, s) for s in f.shape)] = f
     return out
